@@ -72,11 +72,8 @@ def expected_sign(iso, I, J):
 
 def check_config(cfg, ctx, lazy):
     name = gen.cfg_str(cfg)
-    st, alg = ctx.guarded(60, gen.make_algebra, cfg)
-    if st != 'ok':
-        # every configuration generated here is admissible; failing to construct it is recorded
-        ctx.note_raised(alg, 'construct') if st == 'exc' else None
-        ctx.violation('construction-failed', ['construct', name], config=cfg, error=repr(alg))
+    alg = gen.make_or_skip(ctx, cfg)
+    if alg is None:
         return
     ctx.count('algebras')
     d = alg.d
